@@ -1,6 +1,6 @@
 (* C06 - single-shot fits are the weighted least-squares optimum of their family *)
 From Coq Require Import QArith List Arith Bool.
-From TW Require Import GJModel LSQ Rscale Rscale2 Shift Recovery LinearFit Legacy.
+From TW Require Import GJModel LSQ Rscale Rscale2 Shift Recovery LinearFit Legacy Unique.
 Import ListNotations.
 Open Scope Q_scope.
 
@@ -59,6 +59,16 @@ Theorem C06_rscale_exact_recovery : forall l, 0 < sw l -> (forall z, In z l -> 0
     py z == f10 (model l) * pu z + f11 (model l) * pv z + s2 (model l).
 Proof. exact rscale_exact_recovery. Qed.
 Print Assumptions C06_rscale_exact_recovery.
+
+(* uniqueness: for data containing three positively weighted non-collinear sources, any coefficient triple that
+   does as well as the general fit IS the general fit (so "agrees with an independent exact solution") *)
+Theorem C06_general_unique : forall l, (forall z, In z l -> 0 <= pw z) -> forall p q a b c,
+  fit_general l = FitOk p q ->
+  In a l -> In b l -> In c l -> 0 < pw a -> 0 < pw b -> 0 < pw c -> noncollinear3 a b c ->
+  forall c', (ssr l px c' <= ssr l px p -> qnth c' 0 == qnth p 0 /\ qnth c' 1 == qnth p 1 /\ qnth c' 2 == qnth p 2) /\
+             (ssr l py c' <= ssr l py q -> qnth c' 0 == qnth q 0 /\ qnth c' 1 == qnth q 1 /\ qnth c' 2 == qnth q 2).
+Proof. exact general_fit_unique. Qed.
+Print Assumptions C06_general_unique.
 
 (* non-vacuity and the special-angle inputs of finding F1: exact 45 degree x sqrt 2 lattice *)
 Definition lat45 : list pr :=
